@@ -1,6 +1,10 @@
 /- C07 — root of the property's theorems:
    C07     swap symmetry of the contractions over any commutative semiring, transposition involutive
    C07Gen  facts about the regenerated class table (decide +kernel)
-   C07b    the LA ≤ LB dispatch of type2 is exactly symmetric (any scalar, hence bit for bit in doubles) -/
+   C07b    the LA ≤ LB dispatch of type2 is exactly symmetric (any scalar, hence bit for bit in doubles)
+   C07c    exchange symmetry of the primitive radial integrals with equal Bessel orders as the recurrences compute them:
+           Q(l,l,k; x,y) = Q(l,l,k; y,x) with GA <-> GB for all 20 equal-order cases the library generates (and every k for l = 0, 1),
+           from the integration-by-parts relations at N >= 1; a counter-model shows the N <= 0 relations alone do not suffice -/
 import Ecpint.Props.C07
 import Ecpint.Props.C07b
+import Ecpint.Props.C07c
